@@ -231,7 +231,7 @@ def convertTokens (toks : List Tok) : Except Err (List Row) :=
   match toks with
   | .bad :: _ => .error .lexError
   | _ => do
-    let fuel := toks.length + 2
+    let fuel := 2 * toks.length + 4     -- never runs out: `RefineAscFuel.convertWith_nofuel` (with `length + 2` it did, on `( | ( | …`)
     let t0 ← skipComments fuel toks
     let t1 ← expectLp t0
     let r ← parseTop fuel t1 []
